@@ -12,9 +12,9 @@ ctest --test-dir _build -j6 --timeout 900 > /tmp/mut/$ID.ctest.log 2>&1; T=$?
 SUMMARY=$(grep "tests passed" /tmp/mut/$ID.ctest.log)
 echo "ctest rc=$T: $SUMMARY" | tee -a $LOG
 bash $O/demo.sh $W > /tmp/mut/$ID.demo_with.log 2>&1; RW=$?
-git stash -q; cmake --build _build -j6 >>$LOG 2>&1
+git apply -R $O/patch.check.diff; cmake --build _build -j6 >>$LOG 2>&1
 bash $O/demo.sh $W > /tmp/mut/$ID.demo_without.log 2>&1; RWO=$?
-git stash pop -q
+git apply $O/patch.check.diff
 echo "demo with change rc=$RW, without rc=$RWO" | tee -a $LOG
 if [ $T -eq 0 ] && [ $RW -ne 0 ] && [ $RWO -eq 0 ]; then
   mkdir -p $D; cp $O/patch.diff $D/patch.diff; cp $O/demo.* $D/ 2>/dev/null
